@@ -84,6 +84,9 @@ func linEval(v ssa.Value, isPeriod func(ssa.Value) bool, depth int) linForm {
 func runC17(c *Ctx) {
 	c.rule("S9", "in everything the staleness verdict reaches inside the filesystem package, an error assigned to a variable is read before it is overwritten and a failing side does not return success: a listing that failed is not an empty lock directory", 20)
 	c.staleVerdictErrorsTravel("S9")
+	c.rule("S10", "while the holder is alive the heartbeat is refreshed every period: every beat (re)creates the heartbeat file (a creating write lies in the loop) — a creation that failed once is repaired one period later", 1)
+	c.rule("S11", "the instant written at a beat is read from the clock at that beat (time.Now() evaluated in the loop): a schedule computed from the previous beat drifts from the observers' clocks and never catches up", 1)
+	c.heartBeatEveryBeat("S10", "S11")
 	c.rule("S1", "heartbeat lifecycle: started on every successful acquire with a cancellable child context registered in the lock's store, the lock's period and a file inside the lock directory; the loop writes every iteration and ends only on context error; Unlock cancels the store first", 6)
 	c.rule("S2", "writer interval I(p) and reader threshold T(p) are linear in the same period field: I ≤ p, T − I ≥ p, comparison is age > T, both sides in the same unit", 3)
 	c.rule("S3", "IsStale: constant false only on a failed filesystem call; the empty directory is judged by its own age; all heartbeat files must be stale; nil time info is not stale", 4)
